@@ -27,7 +27,7 @@ pub const VALUE_SUBST: &[u8] = &[0xc0, 0xc2, 0x00, 0x90, 0x80, 0xa0];
 /// Replacement contents for every stored string (well-formed msgpack, hostile or degenerate content).
 pub const STRING_DICT: &[&str] = &[
     "", "a", "/", "//", "/a/", "*", "^", "|", "||", "{}", "[]", "null", "{\"selector\":[]}", "{\"selector\":[],\"action\":null}",
-    "{\"selector\":[{\"type\":\"css-selector\",\"arg\":\"\"}]}", "+js()", ",", "a, b, c", "x:99999999999999999999", ":", "\u{e9}", "\u{0}", "(", "[a-", "(?P<", "\\",
+    "{\"selector\":[{\"type\":\"css-selector\",\"arg\":\"\"}]}", "+js()", ",", "a, b, c", "x:99999999999999999999", ":", "\u{e9}", "ex\u{e4}mple.com", "ab\u{e9}", "\u{0}", "(", "[a-", "(?P<", "\\",
     "aaaaaaaaaaaaaaaaaaaaaaaaaaaaaaaaaaaaaaaaaaaaaaaaaaaaaaaaaaaaaaaaaaaaaaaaaaaaaaaaaaaaaaaaaaaaaaaaaaaaaaaaaaaaaaaaaaaaaaaaaaaaaaaaaaaaaaaaaaaaaaaaaaaaaaaaaaaaaaaaaaaaaaaaaaaaaaaaaaaaaaaaaaaaaaaaaaaaaaaaaaaaaaaaaaaaaaaaaaaaaaaaaaaaaaaaaaaaaaaaaaaaaaaaaaaaaaaaaaaaaaaaaaaaaaaaaaaaaaaaaaaaaaaaaaaaaaaaaaaaaaaaaaaaaa",
 ];
 pub const MARKERS: &[u8] = &[0xc0, 0xc2, 0xc3, 0xdb, 0xc6, 0xdd, 0xdf, 0xc9, 0xcf, 0xd3, 0xcb, 0x90, 0x80, 0xa0, 0xff, 0xc1, 0xda, 0xdc, 0xde, 0xc5];
@@ -569,7 +569,7 @@ fn full_answers(e: &Engine, w: &World, reqs: &Reqs, light: bool) -> u64 {
     let s = SutRef(e);
     let mut d = Digest::new();
     for (i, rq) in reqs.reqs.iter().enumerate() {
-        if light && i >= 6 {
+        if light && i >= 12 {
             break;
         }
         if let Some(rq) = rq {
@@ -882,7 +882,14 @@ pub fn buffer_set(base: u64, bi: u64, n_sampled: u64) -> BufferSet {
     let p = buffer_profile();
     let wa = gen_world(seed, &p);
     let wb = gen_world(seed ^ 0xb, &p);
-    let wt = gen_world(seed ^ 0x7a, &p);
+    let mut wt = gen_world(seed ^ 0x7a, &p);
+    // resource-store observers: one redirect rule and one request per resource name, loaded or not, so
+    // that the answers of the target engine show which names its resource store resolves
+    for (i, name) in ["missing.js", "smuggled.js", "noop.js", "1x1.gif", "noop.txt", "blank"].iter().enumerate() {
+        wt.rules.push(Rule { spec: RuleSpec::Net(NetRule { exc: false, pat: format!("||sentinel.test/r{}^", i), opts: vec![format!("redirect={}", name)], tag: None }), perm: 0 });
+        // (in front: the light comparison after every single case covers the first 12 probes)
+        wt.probes.insert(0, Probe { url: format!("https://sentinel.test/r{}", i), source: "https://example.com/".into(), rtype: "script".into() });
+    }
     let bytes_of = |w: &World| -> Vec<u8> {
         match Sut::build(&w.rules, &[], w.knobs.optimize, w.knobs.debug, 0, false, None) {
             Sut::Engine(e) => e.serialize_raw().expect("serialize"),
